@@ -789,7 +789,9 @@ def decap_oracle(i, op, so, o, fed, mand, rx_last, trains, info, strict, sess, F
     # per-packet rejections consume exactly the packet
     if so.err and so.toks[1] in ("Crc", "Memory.undefined", "Memory.underflow", "UnkownMandatoryHeader", "NoLabelSaved",
                                  "SizePduBuffer", "TotalLength", "InvalidLabel") and cons != n:
-        if not (so.toks[1] in ("SizePduBuffer", "TotalLength") and pk.kind in "CF"):
+        # (a first fragment whose total length does not exceed its own payload is malformed: the rest of the buffer
+        # is dropped with it; every other rejection of a well-formed packet consumes the packet only)
+        if not (so.toks[1] == "TotalLength" and pk.kind == "F"):
             F(i, ["C10"], "packet of %d bytes rejected with %s consumed %s" % (n, so.toks[1], cons))
     if so.ok and cons != n:
         F(i, ["C10", "C01", "C02"], "accepted packet of %d bytes, consumed %s" % (n, cons))
